@@ -160,3 +160,94 @@ def block_ranges(path, interp, names=("memcpy", "memmove", "memset")):
             if d is not None:
                 out.append((t[1], d.base, d.off, t[2][2], t[3]))
     return out
+
+
+def c_format(fmt, args):
+    """Minimal printf for the conversions libksi uses (%c %s %d %i %u %x %X %p with 0 / width / * and h l ll z modifiers).
+    Returns the formatted text or None when an argument is not concrete."""
+    out = []
+    it = iter(args)
+    i = 0
+    while i < len(fmt):
+        ch = fmt[i]
+        if ch != "%":
+            out.append(ch)
+            i += 1
+            continue
+        i += 1
+        if i < len(fmt) and fmt[i] == "%":
+            out.append("%")
+            i += 1
+            continue
+        zero = left = False
+        while i < len(fmt) and fmt[i] in "0-+ #":
+            zero = zero or fmt[i] == "0"
+            left = left or fmt[i] == "-"
+            i += 1
+        width = ""
+        if i < len(fmt) and fmt[i] == "*":
+            w = next(it, None)
+            if not isinstance(w, int):
+                return None
+            width = str(w)
+            i += 1
+        while i < len(fmt) and fmt[i].isdigit():
+            width += fmt[i]
+            i += 1
+        if i < len(fmt) and fmt[i] == ".":
+            i += 1
+            while i < len(fmt) and (fmt[i].isdigit() or fmt[i] == "*"):
+                i += 1
+        while i < len(fmt) and fmt[i] in "hlzjt":
+            i += 1
+        if i >= len(fmt):
+            return None
+        conv = fmt[i]
+        i += 1
+        a = next(it, None)
+        if conv == "c":
+            if not isinstance(a, int):
+                return None
+            txt = chr(a & 0xff)
+        elif conv == "s":
+            if isinstance(a, Ptr) and isinstance(a.what, str) and a.what.startswith("str:"):
+                txt = a.what[4:]
+            else:
+                return None
+        elif conv in "diu":
+            if not isinstance(a, int):
+                return None
+            txt = str(a)
+        elif conv in "xX":
+            if not isinstance(a, int):
+                return None
+            txt = ("%x" if conv == "x" else "%X") % a
+        else:
+            return None
+        w = int(width) if width else 0
+        if len(txt) < w:
+            txt = txt.ljust(w) if left else (txt.rjust(w, "0") if zero and conv not in "cs" else txt.rjust(w))
+        out.append(txt)
+    return "".join(out)
+
+
+def snprintf_model(I, p, node, args):
+    """KSI_snprintf(buf, n, fmt, ...): writes at most n - 1 characters and a terminating NUL, returns the number of characters written
+    (0 when buf is NULL or n is 0) - the library's own wrapper semantics."""
+    d = I.as_off(args[0])
+    n = args[1]
+    fmt = args[2].what[4:] if isinstance(args[2], Ptr) and str(args[2].what).startswith("str:") else None
+    if fmt is None or not isinstance(n, int):
+        return TOP
+    txt = c_format(fmt, args[3:])
+    if txt is None:
+        return TOP
+    if d is None:
+        return 0 if args[0] == 0 else TOP
+    if n == 0:
+        return 0
+    w = txt[:n - 1]
+    for k, ch in enumerate(w):
+        I.write(p, "%s[%d]" % (d.base, d.off + k), ord(ch), node.get("ln"))
+    I.write(p, "%s[%d]" % (d.base, d.off + len(w)), 0, node.get("ln"))
+    return len(w)
